@@ -133,9 +133,17 @@ def mon_queue(case, log):
     started = {}
     pending = {}        # key -> tags that arrived and have neither started nor been discarded
     tag_model = {}
+    must_start = {}
     for it in log:
+        if it[0] in ('ret', 'raised') and it[1] in must_start:
+            k = must_start.pop(it[1])
+            if it[1] not in started.get(k, []):
+                bad.append(('queue.spurious_defer', 'call %s arrived at the idle queue %s but its caller did not process it'
+                            % (it[1], k)))
         if it[0] == 'begin':
             k = key_of(case, it[3])
+            if open_ev.get(k) is None and not pending.get(k):
+                must_start[it[1]] = k
             tag_model[it[1]] = it[3]
             arrivals.setdefault(k, []).append(it[1])
             pending.setdefault(k, []).append(it[1])
@@ -288,7 +296,11 @@ def mon_cleanup(case, run):
     if run.hang is None:
         if run.final_tasks:
             bad.append(('cleanup.leftover', 'async_tasks not empty after all triggers finished: %s' % run.final_tasks))
+        late = set(case.get('late', []))
+        added = set(it[1] for it in log if it[0] == 'add')
         for mi, st in enumerate(run.final_states):
+            if mi in late and mi not in added:
+                continue        # never attached to the machine (the attaching callback did not run)
             if st not in legal:
                 bad.append(('state.unregistered', 'model %s ends in %r' % (mi, st)))
     return bad
